@@ -433,6 +433,10 @@ def draw_direction(rng, mu, i, W, ball: bool) -> np.ndarray:
     +-(mu_j - mu_i): the directions in which a wrong comparison hurts."""
     m = mu.shape[1]
     c = rng.random()
+    if not ball and rng.random() < 0.3:
+        # a corner of the box: the extreme valid position, where an unsound shortcut in a
+        # rectangle comparison (e.g. looking at one corner pair only) is exposed
+        return rng.choice([-1.0, 1.0], size=m)
     if c < 0.35 and W is not None:
         v = W[int(rng.integers(len(W)))] * rng.choice([-1.0, 1.0])
     elif c < 0.7 and len(mu) > 1:
